@@ -150,7 +150,14 @@ def build_and_run(job):
         kw.update(x=(np.array([[0.3], [-0.7]]) + (0.1j if cplx else 0)).astype(y.dtype))
     if job.get("pbar"):
         # progress bar on: App.run takes its other path and _summarize evaluates the documented objective after every update
-        kw.update(show_pbar=True, leave_pbar=False)
+        # (save_objective_values with the regulariser passed as g): the recorded values must be the documented objective
+        kw.update(show_pbar=True, leave_pbar=False, save_objective_values=True)
+        if o["proxg"] == "l1":
+            kw.update(g=lambda v: LAMG * float(np.abs(v).sum()))
+        elif o["proxg"] == "l2":
+            kw.update(g=lambda v: LAM2 / 2 * float(np.linalg.norm(v) ** 2))
+        elif o["proxg"] == "box":
+            kw.update(g=lambda v: 0.0)
     if job.get("x32"):
         # warm start whose dtype differs from the data's (float32 / complex64): the solution must still be written into it
         kw.update(x=(np.array([[0.3], [-0.7]]) + (0.1j if cplx else 0)).astype(np.complex64 if cplx else np.float32))
@@ -177,6 +184,11 @@ def build_and_run(job):
     held = getattr(ap.alg, "x", None)
     res["returned_equals_alg_x"] = bool(held is None or (np.shape(held) == np.shape(x) and np.allclose(np.asarray(held), np.asarray(x), rtol=1e-5, atol=1e-6)))
     res["x32"] = bool(job.get("x32"))
+    if job.get("pbar"):
+        ov = list(getattr(ap, "objective_values", []))
+        res["recorded_objective"] = float(ov[-1]) if ov else None
+        res["recorded_count"] = len(ov)
+        res["updates"] = int(ap.alg.iter)
     if "x" in kw:
         res["x_is_callers"] = bool(x is kw["x"])
     xs, fs = optimum(A, y, zz, lam, o["proxg"], Gm)
@@ -243,6 +255,11 @@ def run(ctx):
         if not np.isfinite(res["f"]) or gap > tol:
             r.violations.append(core.Violation(["C14"], "lls", dict(key, kind="not_minimiser", eff=res["eff"]),
                                                "documented objective at the returned x is %.6g, optimum %.6g (gap %.3g > %.3g); x = %s, x* = %s" % (res["f"], res["fstar"], gap, tol, res["x"], res["xstar"]), {"result": res}))
+        if job.get("pbar"):
+            ro = res.get("recorded_objective")
+            if ro is None or abs(ro - res["f"]) > 1e-9 * max(1.0, abs(res["f"])) or res.get("recorded_count") != res.get("updates", 0) + 1:
+                r.violations.append(core.Violation(["C14"], "lls", dict(key, kind="recorded_objective"),
+                                                   "objective_values[-1] = %s after %s updates (%s values recorded), documented objective at the returned x = %.12g" % (ro, res.get("updates"), res.get("recorded_count"), res["f"]), {"result": res}))
         if not res.get("returned_equals_alg_x", True):
             r.violations.append(core.Violation(["C15", "C14"], "lls", dict(key, kind="returns_other_than_alg_holds"), "App.run() returned an array that differs from the solution the algorithm holds (alg.x)", {"result": res}))
         if not res.get("returned_is_app_x", True) or res.get("x_is_callers") is False:
